@@ -1,7 +1,7 @@
 (* C08 -- property theorems only. *)
 From Coq Require Import Reals ZArith List Bool.
 From Coquelicot Require Import Coquelicot.
-From WNTRV Require Import Lib.ExprR Gen.Formulas Lib.Spline Lib.Sched C08.Model C08.Proofs.
+From WNTRV Require Import Lib.ExprR Gen.Formulas Lib.Spline Lib.SplineMono Lib.Sched C08.Model C08.Proofs C08.Mono.
 Local Open Scope R_scope.
 
 Theorem C08_leak_law : forall area cd p, ldelta < p -> leak_rate area cd p = cd * area * sqrt (2 * (981 / 100) * p).
@@ -21,10 +21,18 @@ Theorem C08_sqrt_law_derivative : forall area cd p,
   0 < p -> is_derive (fun x => cd * area * sqrt (2 * (981 / 100) * x)) p (1 / 2 * cd * area * sqrt (2 * (981 / 100)) * pw p (- (1 / 2))).
 Proof. exact sqrt_law_derivative. Qed.
 (* the start control fires exactly in the step that contains start_time, cutting the step back to it (same for end_time) *)
+(* the discharge is non-decreasing in the pressure head everywhere -- zero branch, smoothing cubic, square-root law -- for every leak whose
+   regularising slope does not exceed three times the secant slope of the band (the slope matched at the right end is exactly half of it) *)
+Theorem C08_leak_slope_half_secant : forall area cd, lm2 area cd = lsec area cd / 2.
+Proof. exact lm2_half_secant. Qed.
+Theorem C08_leak_monotone : forall area cd, 0 <= cd * area -> leak_box area cd ->
+  forall p q, p <= q -> leak_rate area cd p <= leak_rate area cd q.
+Proof. exact leak_monotone. Qed.
 Theorem C08_leak_start_fires : forall start cur prev,
   (prev < start <= cur)%Z -> eval_sim Req start 0 cur prev = (true, (cur - start)%Z).
 Proof. exact leak_start_fires. Qed.
 Print Assumptions C08_leak_law.
 Print Assumptions C08_leak_C0_C1.
 Print Assumptions C08_sqrt_law_derivative.
+Print Assumptions C08_leak_monotone.
 Print Assumptions C08_leak_start_fires.
